@@ -4,6 +4,8 @@ import Proofs.LineNumbersSbs2
 import Proofs.LineNumbersHeader
 import Proofs.Machine.HunkCounter
 import Proofs.WholeDiff
+import Proofs.WholeDiffWidth
+import Proofs.Machine.HunkNames
 /-!
 C05 — displayed line numbers are the true old/new file line numbers.
 
@@ -441,5 +443,126 @@ example : runWhole 32 [.names "a" "a", .header "@@ -1 +1 @@".toList, .names "b" 
     .header "@@ -5 +6 @@".toList] = .ok [] := by rfl
 
 end WholeDiffs
+
+-- width of the number fields; coordinates over the whole usize range ------------------------------------
+
+section WidthAndCoordinates
+open LineNumbers.Whole
+
+/-- **The width of the number fields is a function of the hunk header alone and covers every number of the
+    hunk, for all format strings.** `hunk_max_line_number_width` as `initialize_hunk` computes it is
+    `h.width` = the digit count of `max (a + b) (c + d)` (a missing count is 1). In a hunk that has no more
+    old / new lines than its header announces (`h.truthful`), every number shown has at most that many digits;
+    hence, whatever the two format strings parse to (`fl`, `fr`: any placeholder lists — widths, alignments,
+    several placeholders, none), the gutter of every row of the hunk is exactly as long as the gutter of a row
+    that shows no number: the number columns of a hunk line up. (`pad_width`: the digits are unbroken in it.) -/
+theorem number_field_width_covers_hunk (h : Hunk) (ht : h.truthful) (fl fr : List PH) (cell : Cell)
+    (hab : h.a + h.b.getD 1 ≤ usizeMax) (hcd : h.c + h.d.getD 1 ≤ usizeMax)
+    (hc : some cell ∈ trueRows h.a h.c h.ks) :
+    (∃ cs, initializeHunk h.pairs = .ok (cs, h.width)) ∧
+    (∀ n, cell.left = some n → (Nat.repr n).length ≤ h.width) ∧
+    (∀ n, cell.right = some n → (Nat.repr n).length ≤ h.width) ∧
+    (renderCell fl fr h.width (some cell)).length =
+      (renderCell fl fr h.width (some ⟨true, true, none, none⟩)).length := by
+  obtain ⟨_, _, hl, hr⟩ := trueRows_bounds h.ks h.a h.c cell hc
+  obtain ⟨hm, hp⟩ := width_covers h ht cell hc
+  have hrep : ∀ n, (Nat.repr n).length = (digits n).length := by
+    intro n; rw [digits_eq_repr, String.length_toList]
+  refine ⟨⟨_, initializeHunk_two _ _ _ _ hab hcd⟩, ?_, ?_, ?_⟩
+  · intro n hn; rw [hrep]; exact hm n (by simpa [Cell.left, hl] using hn)
+  · intro n hn; rw [hrep]; exact hp n (by simpa [Cell.right, hr] using hn)
+  · simp only [renderCell, hl, hr, if_true, List.length_append,
+      renderField_length fl h.width cell.minus cell.plus hm hp, renderField_length fr h.width cell.minus cell.plus hm hp]
+
+/-- the hypotheses on a non-trivial hunk (`@@ -98,3 +99,2 @@`: the old side reaches 100) -/
+example : (⟨98, some 3, 99, some 2, [], [.ctx, .minus, .ctx]⟩ : Hunk).truthful ∧
+    (⟨98, some 3, 99, some 2, [], [.ctx, .minus, .ctx]⟩ : Hunk).width = 3 ∧
+    some (trueCell 100 100 .ctx) ∈ trueRows 98 99 [.ctx, .minus, .ctx] := by decide
+
+/-- `h.truthful` is needed: `@@ -8 +8 @@` followed by three removed lines shows 10 in a field for one digit,
+    and that row's gutter is longer than the others' (default format of the left field: `{nm:^4}⋮`, so take
+    the format `{nm}`) -/
+example : ¬ (⟨8, none, 8, none, [], [.minus, .minus, .minus]⟩ : Hunk).truthful ∧
+    (⟨8, none, 8, none, [], [.minus, .minus, .minus]⟩ : Hunk).width = 1 ∧
+    some (trueCell 10 8 .minus) ∈ trueRows 8 8 [.minus, .minus, .minus] ∧
+    (renderField [⟨[], 0, some 1, none, none, none, [], [], 0⟩] 1 (some 10) none).length = 2 ∧
+    (renderField [⟨[], 0, some 1, none, none, none, [], [], 0⟩] 1 (some 9) none).length = 1 := by decide
+
+/-- **Hunk-header coordinates over the whole `usize` range**: omitted counts (`@@ -3 +4 @@`), zero-length
+    sides (`-0,0`), numbers up to `usize::MAX`. Whenever each number of `@@ -a[,b] +c[,d] @@frag` fits `usize`
+    the line is parsed back to `[(a, b|1), (c, d|1)]`; the position printed in the header row is `c`;
+    `initialize_hunk` seeds the counters with `(a, c)` and takes the width from `max (a+b) (c+d)`; when a sum
+    `start + length` leaves `usize` it saturates at `usize::MAX` or the addition panics — whichever the source
+    says (`maxSumSaturates`, regenerated; on the pinned tree: saturates) — and nothing else changes. -/
+theorem header_coordinates_full_range (a : Nat) (b : Option Nat) (c : Nat) (d : Option Nat) (frag : List Char)
+    (hfrag : frag.head? ≠ some '@')
+    (ha : a ≤ usizeMax) (hb : ∀ k, b = some k → k ≤ usizeMax) (hc : c ≤ usizeMax) (hd : ∀ k, d = some k → k ≤ usizeMax) :
+    parseHunkHeader (fmtHunkHeader a b c d frag) = .ok (some (frag, [(a, b.getD 1), (c, d.getD 1)])) ∧
+    headerNumber [(a, b.getD 1), (c, d.getD 1)] = .ok c ∧
+    initializeHunk [(a, b.getD 1), (c, d.getD 1)] =
+      (if a + b.getD 1 ≤ usizeMax ∧ c + d.getD 1 ≤ usizeMax then
+         .ok (⟨a, c⟩, (digits (max (a + b.getD 1) (c + d.getD 1))).length)
+       else if Generated.LineNum.maxSumSaturates = true then
+         .ok (⟨a, c⟩, (digits (max (min (a + b.getD 1) usizeMax) (min (c + d.getD 1) usizeMax))).length)
+       else .error "attempt to add with overflow") :=
+  ⟨parseHunkHeader_fmt a b c d frag hfrag ha hb hc hd, headerNumber_two _ _ _ _, initializeHunk_two_any _ _ _ _⟩
+
+/-- omitted counts; a zero-length old side; the largest start there is, with a count that leaves `usize` -/
+example : parseHunkHeader "@@ -3 +4 @@".toList = .ok (some ([], [(3, 1), (4, 1)])) ∧
+    parseHunkHeader "@@ -0,0 +1,5 @@ x".toList = .ok (some (" x".toList, [(0, 0), (1, 5)])) ∧
+    fmtHunkHeader 0 (some 0) 1 (some 5) " x".toList = "@@ -0,0 +1,5 @@ x".toList := ⟨by rfl, by rfl, by decide⟩
+example : Generated.LineNum.maxSumSaturates = true →
+    initializeHunk [(usizeMax, 2), (1, 1)] = .ok (⟨usizeMax, 1⟩, 20) := by
+  intro h
+  rw [initializeHunk_two_any, if_neg (by decide), if_pos h]
+  have : (digits (max (min (usizeMax + 2) usizeMax) (min (1 + 1) usizeMax))).length = 20 := by decide
+  rw [this]
+
+end WidthAndCoordinates
+
+-- the path and position in the hunk-header row, over the state machine's file names ----------------------
+
+section HeaderRowOverMachine
+open Machine Machine.HunkNames Machine.Counter
+
+/- Full statement (not proved as one whole-run theorem): "in the output of `Machine.run` on any two-way diff, every
+   hunk-header row shows the path of the `+++ ` line (the `--- ` line for `/dev/null`) of the file section the hunk
+   stands in and the new-file start of its own `@@` line". Proved below are its three parts; what is missing is the
+   lift through `chain` / `runFrom` for the other handlers that may run between a `+++ ` line and a hunk of the same
+   section (none of them claims a line in well-formed two-way input; a `Binary files … differ` line appends a suffix
+   to both names by design). The binary-level oracle (`header:path-wrong`, `header:number-wrong`) covers whole runs. -/
+
+/-- **The hunk-header row is made from the machine's current file names and this header's coordinates**
+    (model `DeltaModel/Machine.lean`, driver `drv_machine`):
+    1. the `+++ ` line handler stores the path it parses as the plus file and keeps the minus file;
+    2. the handler of an `@@` line changes neither name, 3. nor does the handler of a hunk line — which is the one
+       that writes the pending hunk-header row; so every hunk of a file section is written under the names the
+       section's header lines left;
+    4. with `file` and `line-number` in the hunk-header style, the text of that row is
+       `<label><path>:<c>:<fragment>` where `<path>` is the plus file unless that is `/dev/null`, then the minus
+       file, and `c` is the start of the last (new-file) coordinate pair of the `@@` line being written. -/
+theorem hunk_header_path_partial {cfg : Cfg} {m m' : M} {l : L} {b : Bool} :
+    (plusLineTest m l = true → handlePlusLine cfg m l = .ok (b, m') →
+      (m'.minusFile, m'.plusFile) = (m.minusFile, (Headers.parseDiffHeaderLine l.text (m.source = .gitDiff)).1)) ∧
+    (handleHunkHeader cfg m l = .ok (b, m') → (m'.minusFile, m'.plusFile) = (m.minusFile, m.plusFile)) ∧
+    (handleHunkLine cfg m l = .ok (b, m') → (m'.minusFile, m'.plusFile) = (m.minusFile, m.plusFile)) ∧
+    (∀ (hh : Headers.HunkHeader) (line : Headers.Str) (a b' c d : Nat), cfg.hhFile = true → cfg.hhLineNumber = true →
+      cfg.hunkHeaderStyle.isRaw = false → cfg.colorOnly = false → hh.coords = [(a, b'), (c, d)] →
+      hunkHeaderText cfg m hh line = .ok (some
+        ((if cfg.hunkLabel ≠ [] then cfg.hunkLabel ++ [' '] else []) ++
+         ((if m.plusFile = Generated.Markers.devNull then m.minusFile else m.plusFile) ++
+            ':' :: (toString c).toList ++ [':'] ++ (if fragBody cfg hh = [] then [' '] else [])) ++
+         Text.expand cfg.tab (fragBody cfg hh)))) :=
+  ⟨fun ht e => handlePlusLine_names ht e, fun e => handleHunkHeader_names e, fun e => handleHunkLine_names e,
+   fun hh line a b' c d hf hn hr hc hco => hunkHeaderText_shape cfg m hh line a b' c d hf hn hr hc hco⟩
+
+/-- on a concrete run: two files, the second hunk of the first file and the hunk of the deleted file -/
+example : (match run { hhFile := true, hunkLabel := "HUNK@".toList }
+      (["diff --git a/x.rs b/x.rs", "--- a/x.rs", "+++ b/x.rs", "@@ -1 +1 @@", "-a", "+b", "@@ -70,2 +90,1 @@ fn g()", "-c", " d",
+        "diff --git a/gone b/gone", "deleted file mode 100644", "--- a/gone", "+++ /dev/null", "@@ -5 +0,0 @@", "-z"].map probeLine) with
+    | .ok m => (m.out.filter (fun r => r.kind = .hunkHeader)).map (fun r => String.ofList r.text)
+    | .error _ => []) = ["HUNK@ x.rs:1: ", "HUNK@ x.rs:90: fn g() ", "HUNK@ gone:0: "] := by decide
+
+end HeaderRowOverMachine
 
 end C05
